@@ -1,5 +1,11 @@
-PRIMS = ["abs", "add", "div", "eqb", "float", "frshiftexp", "ltb", "mul", "normfr_mantissa", "of_uint63", "opp", "sub"]
-INTS = ["eqb", "int", "land", "lor", "lsl", "lsr", "sub"]
+# Kernel primitives only (no declared axiom, none of the FloatAxioms specification lemmas): the value type
+# mentions PrimFloat / PrimInt63, so Print Assumptions lists the primitive operations the models use.
+# The whole set of primitive operations is allowed because Cypher/*.v (another area) may start using more of them.
+PRIMS = ["abs", "add", "classify", "compare", "div", "eqb", "float", "frshiftexp", "ldshiftexp", "leb", "ltb", "mul",
+         "next_down", "next_up", "normfr_mantissa", "of_uint63", "opp", "sqrt", "sub"]
+INTS = ["add", "addc", "addcarryc", "addmuldiv", "compare", "diveucl", "diveucl_21", "div", "divs", "eqb", "head0", "int",
+        "land", "leb", "lebs", "lor", "lsl", "lsr", "asr", "ltb", "ltbs", "lxor", "mod", "mods", "mul", "mulc", "sub", "subc",
+        "subcarryc", "tail0", "compares"]
 ALLOWED = (["PrimFloat." + p for p in PRIMS] + ["PrimInt63." + p for p in INTS] + PRIMS + INTS)
 
 SPEC = {
